@@ -14,6 +14,7 @@ A text that parse_isla rejects is outside the quantifier: skipped and counted.
 from __future__ import annotations
 
 import json
+import re
 import time
 from typing import Dict, List
 
@@ -40,8 +41,10 @@ GRAMMAR_ORDER = [
     "assgn", "rightrec", "leftrec", "nullable", "ambig", "num", "multichar",
     "xmlish", "csvish", "altstart", "wide", "esc", "brace",
 ]
-TREE_CAP = {"quick": 40, "thorough": None}
-CASE_TIMEOUT = {"quick": 40, "thorough": 240}
+TREE_CAP = {"quick": 24, "thorough": None}
+CASE_TIMEOUT = {"quick": 12, "thorough": 120}  # CPU seconds per constraint
+SLOW_FAMILIES = ("numeric", "int-name")  # Z3-based evaluation strategy: fewer trees in the quick tier
+SLOW_TREE_CAP = {"quick": 10, "thorough": None}
 
 
 def check_case(case: dict, tier: str, seed: int, verbose: bool = False) -> dict:
@@ -51,7 +54,7 @@ def check_case(case: dict, tier: str, seed: int, verbose: bool = False) -> dict:
     quiet_isla()
     name, text = case["g"], case["c"]
     grammar = all_grammars()[name]
-    out = {"g": name, "fam": case["fam"], "feat": case["feat"], "c": text, "stages": []}
+    out = {"g": name, "fam": case["fam"], "feat": case["feat"], "sig": case.get("sig"), "c": text, "stages": []}
     say = print if verbose else (lambda *a, **k: None)
     t_start = time.time()
     try:
@@ -75,6 +78,7 @@ def check_case(case: dict, tier: str, seed: int, verbose: bool = False) -> dict:
             if err is not None:
                 out["status"] = "violation"
                 out["stages"].append("reparse-rejected")
+                out["why"] = exc_text(err)
                 out["what"] = f"parse_isla rejects the unparsed text {u!r}: {exc_text(err)}"
                 say(out["what"])
                 return out
@@ -93,7 +97,8 @@ def check_case(case: dict, tier: str, seed: int, verbose: bool = False) -> dict:
                 out.setdefault("what", f"unparse(parse(u)) != u: u={u!r} u2={u2!r}")
                 out["u2"] = u2
                 say(f"unparse(parse(u)) = {u2!r} differs from u")
-            picks = pick_trees(name, tier, TREE_CAP[tier], seed)
+            cap = SLOW_TREE_CAP[tier] if case["fam"] in SLOW_FAMILIES else TREE_CAP[tier]
+            picks = pick_trees(name, tier, cap, seed)
             structs = tree_structs(name, tier)
             counts: Dict[str, int] = {}
             diff = None
@@ -102,6 +107,9 @@ def check_case(case: dict, tier: str, seed: int, verbose: bool = False) -> dict:
                 v1 = ev(f, tree, grammar)
                 v2 = ev(f2, tree, grammar)
                 counts[v1] = counts.get(v1, 0) + 1
+                if "U" in (v1, v2) and v1 != v2:
+                    out["unknown"] = out.get("unknown", 0) + 1  # Z3 time-out inside ISLa: inconclusive
+                    continue
                 if v1 != v2 and diff is None:
                     diff = (ti, struct_str(structs[ti]), v1, v2)
             out["verdicts"] = counts
@@ -129,10 +137,40 @@ def _worker(item):
     return [check_case(c, tier, seed) for c in cases]
 
 
+ISLA_KEYWORDS = {"const", "forall", "exists", "in", "int", "not", "and", "or", "xor", "implies",
+                 "iff", "true", "false", "div", "mod", "abs"}
+SMTLIB_SYMBOLS = {"char", "let", "ite", "String", "Int", "Bool", "as", "par", "_", "!", "match", "Real"}
+_RE_BOUND = re.compile(r"(?:forall|exists) <[^<> ]+> ([^\s=:]+)|\{<[^<> ]+> ([^\s}]+)\}|(?:forall|exists) int ([^\s:]+)")
+_RE_IDENT = re.compile(r"[A-Za-z_][A-Za-z0-9_.^-]*")
+
+
+def generated_names(c: str, u: str) -> List[str]:
+    """Variable names bound in the unparsed text ``u`` that are not identifiers of
+    the original text ``c`` (i.e. names ISLa made up for nameless quantifiers, free
+    nonterminals and XPath expressions)."""
+    own = set(_RE_IDENT.findall(re.sub(r"<[^<> ]+>", " ", c)))
+    out: List[str] = []
+    for m in _RE_BOUND.finditer(u or ""):
+        name = m.group(1) or m.group(2) or m.group(3)
+        if name and name not in own and name not in out:
+            out.append(name)
+    return out
+
+
 def _signature(rec: dict) -> str:
+    """stage + cause-oriented input class.  A made-up variable name that is an ISLa
+    keyword / an SMT-LIB symbol / `start` dominates the template's own class."""
     stage = rec["stages"][0]
-    feat = rec["feat"].replace(" ", "_")
-    return f"unparse_isla/parse_isla:{stage}:{rec['fam']}:{feat}"
+    cls = rec.get("sig") or f"{rec['fam']}:{rec['feat']}"
+    if stage == "reparse-rejected":
+        gen = generated_names(rec["c"], rec.get("u", ""))
+        if any(n in ISLA_KEYWORDS for n in gen):
+            cls = "generated-variable-name-is-isla-keyword"
+        elif "start" in gen:
+            cls = "generated-variable-named-start"
+        elif any(n in SMTLIB_SYMBOLS for n in gen):
+            cls = "generated-variable-name-is-smtlib-symbol"
+    return f"unparse_isla:{stage}:{cls}".replace(" ", "_")
 
 
 def run(rep, tier, seed):
@@ -148,7 +186,8 @@ def run(rep, tier, seed):
     )
     rep.bound(
         "trees: all closed ref_trees below <start> up to bounded.grammars.ENUM_NODES nodes per grammar "
-        f"(esc/brace: 9); per constraint at most {TREE_CAP[tier]} of them in this tier (the smallest half + seeded sample)"
+        f"(esc/brace: 9); per constraint at most {TREE_CAP[tier]} of them in this tier (the smallest half + seeded sample; "
+        f"{SLOW_TREE_CAP[tier]} for constraints with numeric quantifiers); watchdog {CASE_TIMEOUT[tier]} CPU seconds per constraint"
     )
     rep.assume("equality of formulas is ISLa's own Formula.__eq__ (that is what the property states)")
     rep.assume("the root symbol is <start> for every grammar (a `const` declaration crashes parse_isla: such texts are skipped as rejected)")
@@ -169,7 +208,7 @@ def run(rep, tier, seed):
     cases = uniq
     for name in GRAMMAR_ORDER:
         tree_structs(name, tier)  # enumerate before forking
-    items = [(tier, seed, ch) for ch in chunks(cases, 6)]
+    items = [(tier, seed, ch) for ch in chunks(cases, 4)]
     results = [r for part in run_pool(_worker, items) for r in part]
 
     fam_counts: Dict[str, Dict[str, int]] = {}
@@ -190,6 +229,8 @@ def run(rep, tier, seed):
             continue
         accepted += 1
         fc["accepted"] += 1
+        if rec.get("unknown"):
+            rep.note_inconclusive(f"{rec['unknown']} one-sided UNKNOWN verdict(s) (Z3 time-out inside ISLa): {rec['g']}: {rec['c']!r}")
         sample = None
         if samples < 10 and rec["fam"] not in ("smt-literal",) or (samples < 12 and rec["status"] == "violation"):
             sample = {k: rec.get(k) for k in ("g", "fam", "feat", "c", "u", "verdicts", "status")}
@@ -200,7 +241,7 @@ def run(rep, tier, seed):
             rep.violation(
                 _signature(rec),
                 f"grammar {rec['g']}: c={rec['c']!r}: {rec.get('what')}",
-                {"module": MODULE, "case": {"g": rec["g"], "fam": rec["fam"], "feat": rec["feat"], "c": rec["c"],
+                {"module": MODULE, "case": {"g": rec["g"], "fam": rec["fam"], "feat": rec["feat"], "sig": rec.get("sig"), "c": rec["c"],
                                               "stages": rec["stages"], "tier": tier, "seed": seed}},
             )
     for fam, fc in fam_counts.items():
